@@ -426,7 +426,8 @@ def run_check(pid, tier):
         evaluations, agg['status'], len(nt), len(agg['abstract']), agg['steps'], wall_s,
         ev['coverage']['runs_per_hour'], bh.hexdigest()[:16]))
     print('faults_fired=%s' % canon(agg['faults']))
-    print('probes=%s' % canon(agg['probes']))
+    pr = canon(agg['probes'])
+    print('probes=%s' % (pr if len(pr) < 1600 else pr[:1600] + '... (%d probes, full list in evidence)' % len(agg['probes'])))
     if gaps:
         print('coverage_gaps=%s' % canon(gaps))
     for sig, e in sorted(known_hit.items()):
